@@ -8,6 +8,7 @@ import (
 	"os/exec"
 	"strconv"
 	"strings"
+	"sync"
 
 	"worldcoin/gnark-mbu/poseidon_tree"
 	"worldcoin/gnark-mbu/prover"
@@ -53,21 +54,21 @@ func helperHash(pc *packCase) (*big.Int, *big.Int) {
 
 // ---- leg B: code -> spec.  The code produces documents; TLC recomputes their hashes afterwards.
 type genDoc struct {
-	ID       string   `json:"id"`
-	Mode     string   `json:"mode"`
-	Depth    int      `json:"depth"`
-	Batch    int      `json:"batch"`
-	Start    string   `json:"start"`
-	Idxs     []string `json:"idxs"`
-	Pre      string   `json:"pre"`
-	Post     string   `json:"post"`
-	Ids      []string `json:"ids"`
-	Helper   string   `json:"helper"`   // InputHash set by ComputeInputHash* (or printed by gen-test-params)
-	Accepted bool     `json:"accepted"` // the real circuit accepts the document with that hash
-	Err      string   `json:"err,omitempty"`
-	ShortPre int      `json:"preBytes"`
-	ShortPost int     `json:"postBytes"`
-	Source   string   `json:"source"`
+	ID        string   `json:"id"`
+	Mode      string   `json:"mode"`
+	Depth     int      `json:"depth"`
+	Batch     int      `json:"batch"`
+	Start     string   `json:"start"`
+	Idxs      []string `json:"idxs"`
+	Pre       string   `json:"pre"`
+	Post      string   `json:"post"`
+	Ids       []string `json:"ids"`
+	Helper    string   `json:"helper"`   // InputHash set by ComputeInputHash* (or printed by gen-test-params)
+	Accepted  bool     `json:"accepted"` // the real circuit accepts the document with that hash
+	Err       string   `json:"err,omitempty"`
+	ShortPre  int      `json:"preBytes"`
+	ShortPost int      `json:"postBytes"`
+	Source    string   `json:"source"`
 }
 
 func strs(bs []big.Int) []string {
@@ -123,10 +124,10 @@ func genTestParamsIns(depth, batch int) *prover.InsertionParameters {
 }
 
 type c08GenCases struct {
-	Dims     [][]interface{} `json:"dims"`     // [mode, depth, batch] for the gen-test-params sweep
-	CLI      string          `json:"cli"`      // path of the gnark-mbu binary (optional)
-	ShortN   int             `json:"shortN"`   // number of valid batches with a short root to search for, per mode
-	RandomN  int             `json:"randomN"`  // further random valid batches per mode
+	Dims    [][]interface{} `json:"dims"`    // [mode, depth, batch] for the gen-test-params sweep
+	CLI     string          `json:"cli"`     // path of the gnark-mbu binary (optional)
+	ShortN  int             `json:"shortN"`  // number of valid batches with a short root to search for, per mode
+	RandomN int             `json:"randomN"` // further random valid batches per mode
 }
 
 func init() {
@@ -152,6 +153,67 @@ func init() {
 				r.Case = map[string]interface{}{"cases": []packCase{*pc}}
 			}
 			emit(r)
+		}
+		// sessions: the same cases again in ONE process, in shuffled order, some preceded by a call whose values are OUT of range
+		// (negative, 2^256, 2^300: no expectation on those), and once more from eight goroutines at the same time.  The helper is
+		// a function of its arguments: nothing an earlier or a concurrent call did may change the hash of an in-range set.
+		rng := rand.New(rand.NewSource(seed() + 808))
+		poison := []*big.Int{big.NewInt(-1), new(big.Int).Lsh(big.NewInt(1), 256), new(big.Int).Lsh(big.NewInt(1), 300), new(big.Int).Neg(new(big.Int).Lsh(big.NewInt(1), 255))}
+		poisonCall := func() {
+			defer func() { recover() }()
+			v := poison[rng.Intn(len(poison))]
+			switch rng.Intn(4) {
+			case 0:
+				(&prover.InsertionParameters{PreRoot: *v, PostRoot: *big.NewInt(5), IdComms: bigs([]string{"1", "2"})}).ComputeInputHashInsertion()
+			case 1:
+				(&prover.InsertionParameters{PreRoot: *big.NewInt(5), PostRoot: *big.NewInt(6), IdComms: []big.Int{*big.NewInt(9), *v}}).ComputeInputHashInsertion()
+			case 2:
+				(&prover.DeletionParameters{PreRoot: *big.NewInt(5), PostRoot: *v, DeletionIndices: []uint32{1, 2}}).ComputeInputHashDeletion()
+			default:
+				(&prover.DeletionParameters{PreRoot: *v, PostRoot: *v, DeletionIndices: []uint32{7}}).ComputeInputHashDeletion()
+			}
+		}
+		sessionCheck := func(kind string, i int, pc *packCase, h *big.Int) {
+			spec := bigOf(pc.Hash)
+			r := Result{ID: fmt.Sprintf("%s/%s/case%d", kind, pc.C.Mode, i), OK: true, Kind: kind, Expected: spec.String(), Observed: h.String()}
+			if new(big.Int).Mod(h, bn254R).Cmp(spec) != 0 {
+				r.OK = false
+				r.Detail = fmt.Sprintf("%s: ComputeInputHash%s returns %s for an in-range parameter set whose on-chain packing hashes to %s (mod r); the same set hashed correctly in isolation = %v",
+					kind, strings.Title(pc.C.Mode), hexOf(h), hexOf(spec), func() bool { x, _ := helperHash(pc); return new(big.Int).Mod(x, bn254R).Cmp(spec) == 0 }())
+				r.Case = map[string]interface{}{"cases": cs.Cases}
+			}
+			emit(r)
+		}
+		for round := 0; round < 2; round++ {
+			for _, i := range rng.Perm(len(cs.Cases)) {
+				if rng.Intn(3) == 0 {
+					poisonCall()
+				}
+				h, _ := helperHash(&cs.Cases[i])
+				sessionCheck("input-hash-after-out-of-range-call", i, &cs.Cases[i], h)
+			}
+		}
+		type hres struct {
+			i int
+			h *big.Int
+		}
+		out := make(chan hres, 8*len(cs.Cases))
+		var wg sync.WaitGroup
+		for g := 0; g < 8; g++ {
+			wg.Add(1)
+			perm := rng.Perm(len(cs.Cases))
+			go func() {
+				defer wg.Done()
+				for _, i := range perm {
+					h, _ := helperHash(&cs.Cases[i])
+					out <- hres{i, h}
+				}
+			}()
+		}
+		wg.Wait()
+		close(out)
+		for x := range out {
+			sessionCheck("input-hash-concurrent", x.i, &cs.Cases[x.i], x.h)
 		}
 	}
 	commands["c08-gen"] = func(args []string) {
